@@ -381,6 +381,23 @@ pub fn gen_median(rng: &mut Rng, tier: &Tier, acc_every: bool) -> Vec<Case> {
 
 pub const WIDE_WIDTHS: [usize; 4] = [255, 256, 257, 300];
 
+/// filters that select or hand on samples, fed zeros of either sign (sample type `fz`): what comes out is one of the
+/// samples that went in, as the value it is
+fn signed_zero_cases(rng: &mut Rng, tier: &Tier, kinds: &[&str]) -> Vec<Case> {
+    let mut cases = Vec::new();
+    for kind in kinds {
+        for _ in 0..tier.n(20, 200) {
+            let n = *rng.pick(&[1usize, 2, 3, 4]);
+            let mut c = vec![format!("new 1 {} N={} T=fz", kind, n)];
+            for _ in 0..rng.range(2, 3 * n as i64 + 4) {
+                c.push(format!("f 1 {}", rng.pick(&["0", "-0", "0", "-0", "1", "-1", "2"])));
+            }
+            cases.push(c);
+        }
+    }
+    cases
+}
+
 /// more samples through ONE instance than a 16-bit counter can count ("all sequence lengths")
 pub const LONG_RUN: usize = 65_536 + 300;
 
@@ -664,6 +681,7 @@ pub fn gen_deque(rng: &mut Rng, tier: &Tier) -> Vec<Case> {
     deque_inject_cases(rng, tier, "max", &mut cases);
     deque_inject_cases(rng, tier, "min", &mut cases);
     cases.extend(small_int_cases(rng, tier, &["max", "min", "bounds"]));
+    cases.extend(signed_zero_cases(rng, tier, &["max", "min", "bounds"]));
     {
         let n = *rng.pick(&[1usize, 2, 3, 5]);
         cases.extend(long_cases(rng, &[format!("max N={}", n), format!("min N={}", n), format!("bounds N={}", n)]));
@@ -761,6 +779,20 @@ pub fn gen_conv(rng: &mut Rng, tier: &Tier) -> Vec<Case> {
         }
     }
     cases.extend(wide_cases(rng, tier, "delay", &[]));
+    cases.extend(signed_zero_cases(rng, tier, &["delay"]));
+    // kernels longer than any small block size (17, 20, 24, 33, 40 taps), plain and normalised
+    for &n in &[17usize, 20, 24, 33, 40] {
+        for _ in 0..tier.n(2, 12) {
+            let kernel: Vec<String> = (0..n).map(|_| rng.range(-5, 5).to_string()).collect();
+            let kind = if rng.chance(1, 3) { "convolve_norm" } else { "convolve" };
+            let mut c = vec![format!("new 1 {} c={}", kind, kernel.join(","))];
+            for _ in 0..(n + rng.range(3, 12) as usize) {
+                c.push(format!("f 1 {}", rng.range(-6, 6)));
+            }
+            c.push("guts 1 taps".into());
+            cases.push(c);
+        }
+    }
     let dn = rng.range(1, 5);
     cases.extend(long_cases(rng, &["convolve c=1,-2,3".to_string(), format!("delay N={}", dn)]));
     cases
@@ -1263,6 +1295,31 @@ pub fn gen_reset(rng: &mut Rng, tier: &Tier) -> Vec<Case> {
                 }
             }
             cases.push(c);
+        }
+    }
+    // reset of a deque whose clock is about to run out (the public state re-injected with shifted time stamps): a reset
+    // filter is a fresh filter whatever its past
+    for kind in ["max", "min"] {
+        let mut dq: Vec<Case> = Vec::new();
+        deque_inject_cases(rng, tier, kind, &mut dq);
+        for c in dq {
+            if !c[0].starts_with("inject ") || !rng.chance(1, 4) {
+                continue;
+            }
+            let n = c[0].split(' ').find(|t| t.starts_with("N=")).unwrap().to_string();
+            let mut v = vec![c[0].clone()];
+            for l in c.iter().skip(1).filter(|l| l.starts_with("f ")).take(rng.range(0, 3) as usize) {
+                v.push(l.clone());
+            }
+            v.push("reset 1".into());
+            v.push(format!("new 2 {} {}", kind, n));
+            for _ in 0..rng.range(2, 8) {
+                let x = rng.range(-9, 9);
+                v.push(format!("f 1 {}", x));
+                v.push(format!("f 2 {}", x));
+                v.push("same 1 2 C12.reset-eq-fresh".into());
+            }
+            cases.push(v);
         }
     }
     // the generic filters at float types: reset, then bit for bit what a freshly constructed filter answers
